@@ -22,6 +22,8 @@ import (
 
 func init() { commands["conc"] = concCmd }
 
+var errHang = fmt.Errorf("a call did not return")
+
 // concCmd records concurrent histories of the in-memory registry (directly or behind a
 // client/server hop).  Every call is logged as an invocation event and a response event,
 // stamped with a global atomic sequence number taken at invocation and at return (a sound
@@ -92,6 +94,12 @@ func concCmd(args []string) error {
 					imm = *immMode == "true"
 				}
 				if err := runStress(enc, cat, rnd, st, imm, *gor, *opsPer); err != nil {
+					if err == errHang {
+						// the history recorded so far (ending in the hang event) is what gets judged
+						bw.Flush()
+						fmt.Printf("{\"histories\":%d,\"hang\":true}\n", total+1)
+						os.Exit(0)
+					}
 					return err
 				}
 				total++
@@ -285,7 +293,16 @@ func runStress(enc *json.Encoder, cat *Catalog, rnd *rand.Rand, stack string, im
 		}(i)
 	}
 	close(start)
-	wg.Wait()
+	allDone := make(chan struct{})
+	go func() { wg.Wait(); close(allDone) }()
+	select {
+	case <-allDone:
+	case <-time.After(hangTimeout):
+		// some goroutine never came back from a call: the history ends with an event no specification explains
+		h.add(ev{"e": "hang", "op": "hang", "g": 0, "direct": false})
+		h.flush(enc)
+		return errHang
+	}
 	ocimem.VerifHook = nil
 	// a sequential epilogue reads everything back (goroutine 0): pins down the final state
 	for _, op := range []Op{{Op: "ResolveTag", R: "r1", T: "t1"}, {Op: "GetTag", R: "r1", T: "t1"}, {Op: "GetBlob", R: "r1", C: "b1"},
